@@ -337,12 +337,14 @@ def check_vec(ctx, F, A):
         trace_key = "c18-trace"
 
         def on_call(ip_, frame, bb, t, st, callee, args, _b=b):
-            if frame.body is _b:
+            if st.ghost.get("c18-vec-on"):
                 r = callee.get("resolved") or callee
                 st.ghost[trace_key] = st.ghost.get(trace_key, ()) + ((r["def"], tuple(args)),)
         ip.on_call.append(on_call)
         try:
-            outs = A.run_fn(b)
+            st0 = ip.new_state()
+            st0.ghost["c18-vec-on"] = True
+            outs = A.run_fn(b, st0=st0)
         finally:
             ip.on_call.remove(on_call)
         n_ok = n_err = 0
